@@ -219,11 +219,19 @@ func structDecls(e *Eval, fileIdx int) []structDecl {
 			for _, sp := range gd.Specs {
 				ts := sp.(*ast.TypeSpec)
 				obj := e.L.Root.TypesInfo.Defs[ts.Name]
-				n, ok := obj.Type().(*types.Named)
+				// (an alias declared in the file denotes the struct it is an alias of)
+				n, ok := types.Unalias(obj.Type()).(*types.Named)
 				if !ok {
 					continue
 				}
-				if _, isSt := n.Underlying().(*types.Struct); !isSt || n.TypeParams().Len() > 0 {
+				if _, isSt := n.Underlying().(*types.Struct); !isSt || n.TypeParams().Len() > 0 || n.TypeArgs().Len() > 0 {
+					continue
+				}
+				dup := false
+				for _, prev := range out {
+					dup = dup || prev.named == n
+				}
+				if dup {
 					continue
 				}
 				sd := structDecl{named: n}
@@ -595,16 +603,23 @@ func checkC08(e *Eval, ref *sqlRef, sc *sqlddl.Schema, enums map[*types.Named]*r
 			continue
 		}
 		st := n.Underlying().(*types.Struct)
-		var want []string
+		// attribute names: the property does not say whether the Go field name or the JSON name is
+		// used; both are accepted, the attribute types and their order are checked
+		var want, wantJSON []string
 		for i := 0; i < st.NumFields(); i++ {
 			c, _ := refSQLType(st.Field(i).Type(), enums, nil)
 			want = append(want, st.Field(i).Name()+" "+c.sqlType)
+			jn, _, _ := strings.Cut(reflect.StructTag(st.Tag(i)).Get("json"), ",")
+			if jn == "" {
+				jn = st.Field(i).Name()
+			}
+			wantJSON = append(wantJSON, jn+" "+c.sqlType)
 		}
 		var got []string
 		for _, f := range ct.Fields {
 			got = append(got, f[0]+" "+f[1])
 		}
-		if strings.Join(got, ", ") != strings.Join(want, ", ") {
+		if strings.Join(got, ", ") != strings.Join(want, ", ") && strings.Join(got, ", ") != strings.Join(wantJSON, ", ") {
 			e.FailX("composite-types", "composite fields", fmt.Sprintf("CREATE TYPE %s AS (%s), want (%s)", ct.Name, strings.Join(got, ", "), strings.Join(want, ", ")), strings.Join(want, ", "), strings.Join(got, ", "))
 		}
 	}
